@@ -341,6 +341,11 @@ func findCoreEndomorphism(strategy *dfs, g []*Statement, cands map[string]map[st
 			q = append(q, s)
 		}
 	}
+	if len(q) == 0 {
+		// No statement connects two blank nodes,
+		// so there is nothing left to search.
+		return mu
+	}
 	sort.Slice(q, func(i, j int) bool {
 		return selectivity(q[i], cands, preds) < selectivity(q[j], cands, preds)
 	})
